@@ -4,6 +4,7 @@
 //! function is declared nowhere in its section; (2) tie of parse_lcov to the Lean byte-machine
 //! `Lcov.parse` on well-formed and malformed inputs. Minimised past failures (corpus/C04/*.json and
 //! `witnesses()`) are replayed first.
+mod bounds;
 mod exc;
 use corrlib::*;
 use corrlib::lcov::*;
@@ -325,6 +326,8 @@ pub fn run(rep: &mut Report) {
     lcov2_stream(rep, &mut reqs, &mut impl_out, &mut inputs);
     // ---- lcov 2.x exception branches (former finding C04-lcov2-exception-branch) ---------------
     exc::run(rep, &mut rng, &run_impl, &mut reqs, &mut impl_out, &mut inputs);
+    // ---- numeric bounds of the BRDA fields ---------------------------------------------------------
+    bounds::run(rep, &mut rng, &run_impl, &mut reqs, &mut impl_out, &mut inputs);
     // ---- malformed stream ---------------------------------------------------------------------
     let m = rep.budget(6_000, 30);
     for _ in 0..m {
@@ -489,21 +492,37 @@ const TOKENS: &[&str] = &[
     ",e", "e3", "BRDA:7,e",
 ];
 
-/// a BRDA branch number is an allocation size (known finding C14-lcov-branch-alloc): keep the
-/// in-process tie away from inputs that could ask for gigabytes
+/// a BRDA BRANCH number is an allocation size (known finding C14-lcov-branch-alloc): keep the
+/// in-process tie away from inputs that could ask for gigabytes – and only from those: the branch
+/// field (third digit run after a `BRDA` key: digits, one byte, optional `e`, digits, one byte,
+/// digits – the way the reader walks the record) holds a value in [10^6, 2^32-1]. Line and block
+/// numbers of any length, and branch numbers beyond u32 (rejected, never allocated), stay in.
 fn huge_branch_risk(b: &[u8]) -> bool {
-    if !b.windows(4).any(|w| w == b"BRDA") {
-        return false;
-    }
-    let mut run = 0;
-    for &c in b {
-        if c.is_ascii_digit() {
-            run += 1;
-            if run >= 7 {
-                return true;
-            }
-        } else {
-            run = 0;
+    let digits = |from: usize| -> (u128, usize) {
+        let mut v: u128 = 0;
+        let mut j = from;
+        while j < b.len() && b[j].is_ascii_digit() {
+            v = v.saturating_mul(10).saturating_add((b[j] - b'0') as u128);
+            j += 1;
+        }
+        (v, j)
+    };
+    for i in 0..b.len().saturating_sub(3) {
+        if &b[i..i + 4] != b"BRDA" {
+            continue;
+        }
+        let (_, j1) = digits(i + 5);
+        if j1 == i + 5 {
+            continue; // no line number: the record is rejected before anything is allocated
+        }
+        let mut k = j1 + 1;
+        if b.get(k) == Some(&b'e') {
+            k += 1;
+        }
+        let (_, j2) = digits(k);
+        let (v, j3) = digits(j2 + 1);
+        if j3 > j2 + 1 && (1_000_000..=u32::MAX as u128).contains(&v) {
+            return true;
         }
     }
     false
@@ -519,7 +538,30 @@ pub fn gen_malformed(rng: &mut Rng) -> Vec<u8> {
 }
 
 fn gen_malformed0(rng: &mut Rng) -> Vec<u8> {
-    match rng.below(4) {
+    match rng.below(5) {
+        4 => {
+            // a valid file with BRDA records at the numeric bounds of their fields spliced in
+            // (line / block / branch at 2^32-1, 2^32, 2^64-1, 2^64), now and then cut short
+            let secs: Vec<Section> = vec![gen_section(rng, &GenCfg::full())];
+            let text = render(&secs, rng.chance(1, 4));
+            let mut lines: Vec<Vec<u8>> = text.split_inclusive(|&c| c == b'\n').map(|l| l.to_vec()).collect();
+            for _ in 0..rng.range(1, 2) {
+                let br = bounds::gen_br(rng);
+                let mut l = bounds::render_bounds(&[], &[br], false);
+                // keep the BRDA line only
+                let start = l.iter().position(|&c| c == b'\n').map(|p| p + 1).unwrap_or(0);
+                l.drain(..start);
+                let end = l.iter().position(|&c| c == b'\n').map(|p| p + 1).unwrap_or(l.len());
+                l.truncate(end);
+                if rng.chance(1, 5) {
+                    let k = rng.below(l.len() as u64 + 1) as usize;
+                    l.truncate(k);
+                }
+                let pos = rng.range(1, lines.len().max(2) as u64 - 1) as usize;
+                lines.insert(pos.min(lines.len()), l);
+            }
+            lines.concat()
+        }
         0 => {
             // token soup
             let n = rng.range(1, 25);
